@@ -815,3 +815,42 @@ Section Combined.
       rewrite He in Hin. apply dims_for_params_in in Hin. tauto.
   Qed.
 End Combined.
+
+Module CombinedExamples.
+  Import Examples.
+  (* polygon coverage with bounds (0,0,1000,1000) and a hole (300,300)-(700,700); GIh / GCh are exact for rectangles *)
+  Definition GIh (g : Z) (b : bbox) : bool :=
+    let '(x0, y0, x1, y1) := b in
+    (x0 <=? 1000) && (0 <=? x1) && (y0 <=? 1000) && (0 <=? y1) &&
+    negb ((300 <? x0) && (x1 <? 700) && (300 <? y0) && (y1 <? 700)).
+  Definition GCh (g : Z) (b : bbox) : bool :=
+    let '(x0, y0, x1, y1) := b in
+    (0 <=? x0) && (x1 <=? 1000) && (0 <=? y0) && (y1 <=? 1000) &&
+    ((x1 <=? 300) || (700 <=? x0) || (y1 <=? 300) || (700 <=? y0)).
+  Definition pa : wms_source := mkWms [s3857] [] [png] None (Some ((0, 0, 1000, 1000), s3857)) (Some 1) None [20].
+  Definition pb : wms_source := mkWms [s900913] [] [png] None (Some ((0, 0, 1000, 1000), s900913)) (Some 1)
+                                      (Some (mkRR (Some (100, 1)) None)) [20; 21].
+  Definition qh (b : bbox) := mkQuery b 100 100 s3857 png_typed [(30, 20, 40)].
+  Example ex_compatible : compatible 1 1 true pa pb (qh (900, 900, 1100, 1100)) = true.
+  Proof. vm_compute. reflexivity. Qed.
+  (* requested together, partly outside: one request, clipped to the common extent *)
+  Example ex_pair_clipped :
+    render_pair Tid 1 1 GIh GCh true pa pb (qh (900, 900, 1100, 1100)) =
+    [Request (mkReq (900, 900, 1000, 1000) 50 50 s3857 png_typed [(30, 20, 40)])].
+  Proof. vm_compute. reflexivity. Qed.
+  (* inside the hole of the polygon (but inside its bounds): not contacted *)
+  Example ex_pair_in_hole : render_pair Tid 1 1 GIh GCh true pa pb (qh (400, 400, 600, 600)) = [Blank].
+  Proof. vm_compute. reflexivity. Qed.
+  (* outside the resolution range of the second source: not combined; the first source is asked on its own
+     (clipped to the extent), the second one is not contacted *)
+  Example ex_pair_res :
+    render_pair Tid 1 1 GIh GCh true pa pb (mkQuery (0, 0, 20000, 20000) 100 100 s3857 png_typed []) =
+    [Request (mkReq (0, 0, 1000, 1000) 5 5 s3857 png_typed []); Blank].
+  Proof. vm_compute. reflexivity. Qed.
+  Example ex_geom_sound : geom_contains_sound GCh pa.
+  Proof.
+    unfold geom_contains_sound, pa. cbn [w_geom w_cov]. intros g cb cs b Hg Hc. inversion Hc; subst.
+    destruct b as [[[x0 y0] x1] y1]. unfold GCh, bbox_contains, ten13. intros H.
+    apply andb_prop in H. destruct H as [H _]. lia.
+  Qed.
+End CombinedExamples.
